@@ -194,7 +194,33 @@ def fd_set_max(F, R):
     R.floor('stores to FileDescriptorSet::max_fd', n, 3)
 
 
+
+def epoll_guard_after_registration(F, R):
+    """Epoll attach: the EpollGuard (whose Drop issues EPOLL_CTL_DEL for the fd and decrements len) comes into existence only after
+    epoll_ctl(ADD) succeeded - no refusal is reachable once it exists.  A guard built up front is dropped on the EEXIST refusal and
+    deregisters the FIRST, still live attachment of the same fd: its events are never reported again (a blocking wait hangs)."""
+    fs = F.find_fns(r'^iceoryx2_bb_linux::epoll::EpollAttachmentBuilder::<.*>::attach$')
+    if len(fs) != 1:
+        R.missing('EpollAttachmentBuilder::attach')
+        return
+    f = fs[0]
+    guards = lib.agg_sites(f, r'^iceoryx2_bb_linux::epoll::EpollGuard$')
+    ctl = f.calls(r'epoll_ctl$')
+    errs = f.err_exit_sites()
+    key = 'NO-ERR-AFTER::%s::guard-exists-only-after-registration' % fnkey(f)
+    if not guards or not ctl:
+        R.ob('NO-ERR-AFTER', key, False, 'anchor-missing: EpollGuard construction (%d) / epoll_ctl (%d)' % (len(guards), len(ctl)), f.file, f)
+        return
+    for g in guards:
+        pth = f.exists_path(g, errs, [])
+        R.ob('NO-ERR-AFTER', key, pth is None and all(f.dominates(c, g) for c in ctl), 'EpollGuard is constructed after epoll_ctl(ADD) and no refusal is reachable afterwards%s' % ('' if pth is None else ' -- refusal reachable with a live guard: blocks %s' % pth), g.where, f)
+    adds = [a for a in f.atomic_ops() if a.op == 'fetch_add']
+    for a in adds:
+        pth = f.exists_path(a.site, errs, [])
+        R.ob('NO-ERR-AFTER', 'NO-ERR-AFTER::%s::len-counted-only-after-registration' % fnkey(f), pth is None, 'len is incremented only when nothing can fail any more', a.site.where, f)
+
 def check(F, R, tier):
+    epoll_guard_after_registration(F, R)
     fd_set_max(F, R)
     guard_drop(F, R)
     attach_side_effect_free(F, R)
